@@ -47,10 +47,12 @@ def handleAnnotate (j : Json) : R Json := do
   let existing ← listOf geneFnOfJson (fldD j "existing" (jArr []))
   let prev ← listOf asInt (fldD j "prev" (jArr []))
   let defs ← dictOfJson (← fld j "defs")
-  let domains ← listOf asInt (← fld j "domains")
-  let m := annotate existing prev defs domains
+  let newDomains ← listOf asInt (← fld j "domains")
+  let domains := domainIdsAfter prev newDomains
+  let m := annotateFull existing prev defs newDomains
   return jObj [("model", jArr (m.map geneFnToJson)),
                ("old", jArr ((annotateOld existing prev defs domains).map geneFnToJson)),
+               ("domains_after", jInts domains),
                ("scope", b true), ("nontrivial", b (defs.any fun kv => kv.2.length > 1))]
 
 def protoOfJson (j : Json) : R Proto := do
@@ -69,6 +71,7 @@ def handleUniq (j : Json) : R Json := do
                ("nocore", jArr ((uniqueProtoclustersNoCore enum).map protoToJson)),
                ("spec", b (canonicalBy (protoKey cross L) tripleLt enum impl)),
                ("tie", b tie), ("scope", b (!tie)),
+               ("spec_nocore", b (canonicalBy (fun p : Proto => ((protoKey cross L p).1, (protoKey cross L p).2.1, (protoKey cross L p).2.2.1, (0 : Int), (0 : Int))) tripleLt enum impl)),
                ("tie_nocore", b (hasKeyTie (fun p : Proto => ((protoKey cross L p).1, (protoKey cross L p).2.1, (protoKey cross L p).2.2.1)) enum)),
                ("nontrivial", b (enum.length > 1))]
 
